@@ -968,6 +968,17 @@ def m_borrow(ex, m, args, callee):
     return r
 
 
+@model(r'^<BigInt as From<impl Into<BigInt>>>::from$|^<impl Into<BigInt> as Into<BigInt>>::into$')
+def m_into_bigint(ex, m, args, callee):
+    v = val(args[0])
+    if isinstance(v, Struct) and v.name == 'BigInt':
+        return v
+    if is_conc(v) or is_z3(v):
+        f = ex.prog.lookup('<BigInt as From<i64>>::from')
+        return ex.exec_fn(f, [v])
+    raise Unmodelled('Into<BigInt> for %r' % (v,))
+
+
 @model(r'^<(.*) as Into<(.*)>>::into$')
 def m_into(ex, m, args, callee):
     src, dst = m.group(1), m.group(2)
@@ -1167,6 +1178,8 @@ def m_to_string(ex, m, args, callee):
         return t
     if isinstance(t, Enum) and not t.fields:
         return '<%s::%s>' % (t.ty, t.vname)      # stands for the Display text of a field-less enum (unique per variant)
+    if isinstance(t, int) and not isinstance(t, bool) and re.match(r'^<(u|i)(8|16|32|64|128|size) as ToString>', m.group(0) or ''):
+        return str(t)
     return Opaque('string', 'to_string')
 
 
@@ -1187,6 +1200,10 @@ def m_string_push(ex, m, args, callee):
     elif m.group(1) == 'push' and isinstance(s, (str, SymStr)) and (is_z3(x) or is_conc(x)):
         chars = [ord(c) for c in s] if isinstance(s, str) else list(s.chars)
         store(r, SymStr(chars + [x]))
+    elif m.group(1) != 'push' and isinstance(s, (str, SymStr)) and isinstance(x, (str, SymStr)):
+        chars = [ord(c) for c in s] if isinstance(s, str) else list(s.chars)
+        more = [ord(c) for c in x] if isinstance(x, str) else list(x.chars)
+        store(r, SymStr(chars + more))
     else:
         store(r, Opaque('string', 'pushed'))
     return Tup([])
@@ -1204,6 +1221,57 @@ def m_str_chars(ex, m, args, callee):
     if m.group(1) == 'char_indices':
         return VecIter([Tup([i, c]) for i, c in enumerate(cs)])
     return VecIter(cs)
+
+
+@model(r'^String::(insert|insert_str)$')
+def m_string_insert(ex, m, args, callee):
+    r = innermost_ref(args[0])
+    s_ = load(r)
+    idx = ex.concretize_int(args[1], 'String::insert index')
+    x = val(args[2])
+    chars = [ord(c) for c in s_] if isinstance(s_, str) else list(s_.chars) if isinstance(s_, SymStr) else None
+    if chars is None:
+        store(r, Opaque('string', 'inserted'))
+        return Tup([])
+    ins = [ord(c) for c in x] if isinstance(x, str) else [x]
+    if not (0 <= idx <= len(chars)):
+        ex.panic('String::insert index out of bounds')
+    new = chars[:idx] + ins + chars[idx:]
+    store(r, ''.join(chr(c) for c in new) if all(is_conc(c) for c in new) else SymStr(new))
+    return Tup([])
+
+
+class SymSet:
+    """IndexSet / HashSet whose elements are symbolic values: membership is decided by forking on equality"""
+    is_model = True
+
+    def __init__(self):
+        self.items = []
+
+    def dup(self):
+        s_ = SymSet()
+        s_.items = list(self.items)
+        return s_
+
+
+@model(r'^IndexSet::(new|insert_full|insert|len|contains|is_empty)$')
+def m_indexset(ex, m, args, callee):
+    k = m.group(1)
+    if k == 'new':
+        return SymSet()
+    st = val(args[0])
+    if k == 'len':
+        return len(st.items)
+    if k == 'is_empty':
+        return len(st.items) == 0
+    x = args[1] if k != 'contains' else val(args[1])
+    for i, it in enumerate(st.items):
+        if ex.branch(eq_dispatch(ex, it, x), 'set element %d equal' % i):
+            return Tup([i, False]) if k == 'insert_full' else (False if k == 'insert' else True)
+    if k == 'contains':
+        return False
+    st.items.append(x)
+    return Tup([len(st.items) - 1, True]) if k == 'insert_full' else True
 
 
 @model(r'^String::(is_empty|len)$|^<impl str>::(is_empty|len)$')
@@ -1225,6 +1293,43 @@ def m_str_id(ex, m, args, callee):
     if m.group(2) and isinstance(t, str):
         return {'trim': t.strip(), 'trim_start': t.lstrip(), 'trim_end': t.rstrip()}[m.group(2)]
     return t
+
+
+@model(r'^<impl str>::(trim_end_matches|trim_start_matches|trim_matches)$')
+def m_str_trim_matches(ex, m, args, callee):
+    s_ = val(args[0])
+    p_ = val(args[1])
+    if isinstance(p_, int) and not isinstance(p_, bool):
+        p_ = chr(p_)
+    if not (isinstance(s_, str) and isinstance(p_, str) and p_):
+        raise Unmodelled('str::%s on non-concrete strings' % m.group(1))
+    k = m.group(1)
+    if k in ('trim_end_matches', 'trim_matches'):
+        while s_.endswith(p_):
+            s_ = s_[:len(s_) - len(p_)]
+    if k in ('trim_start_matches', 'trim_matches'):
+        while s_.startswith(p_):
+            s_ = s_[len(p_):]
+    return s_
+
+
+@model(r'^(Cell|RefCell)::(new|get|set|replace|take|into_inner)$')
+def m_cell(ex, m, args, callee):
+    k = m.group(2)
+    if k == 'new':
+        return Struct('Cell', [args[0]])
+    r = innermost_ref(args[0]) if isinstance(args[0], Ref) else None
+    c = load(r) if r is not None else val(args[0])
+    if k in ('get', 'into_inner'):
+        return dup(c.fields[0])
+    old = c.fields[0]
+    if k == 'set':
+        c.fields[0] = args[1]
+        return Tup([])
+    if k == 'replace':
+        c.fields[0] = args[1]
+        return old
+    raise Unmodelled('Cell::' + k)
 
 
 @model(r'^<impl str>::(starts_with|ends_with|contains|strip_prefix|strip_suffix)$')
@@ -1535,6 +1640,18 @@ def m_numint_from(ex, m, args, callee):
 
 @model(r'^<&NumInt as (Add|Sub|Mul)(<.*>)?>::(add|sub|mul)$')
 def m_numint_arith(ex, m, args, callee):
+    if m.group(3) == 'mul':
+        # k * numer(v), usually divided by denom(v) next (long division): keep it lazy so that the quotient can be
+        # answered by the identity trunc(k*numer(v) / denom(v)) = trunc(k*v), linear in v
+        a0, b0 = deref_all(args[0]), deref_all(args[1])
+        for x, k in ((a0, b0), (b0, a0)):
+            if is_z3(x) and is_conc(k) and not isinstance(k, bool):
+                q = ex.memo.get(('partof', x.get_id()))
+                if q and q[1] == 'n' and ('deferred', x.get_id()) in ex.memo:
+                    pr = ex.fresh('scaled_numer', 'Int')
+                    ex.memo[('scaledof', pr.get_id())] = (q[0], int(k))
+                    ex.memo[('deferred', pr.get_id())] = [pr == int(k) * x] + list(ex.memo[('deferred', x.get_id())])
+                    return pr
     a, b = nv(ex, args[0]), nv(ex, args[1])
     return {'add': n_add, 'sub': n_sub, 'mul': n_mul}[m.group(3)](a, b)
 
@@ -1548,6 +1665,9 @@ def m_numint_div(ex, m, args, callee):
         qb = ex.memo.get(('partof', b.get_id()))
         if qa and qb and qa[1] == 'n' and qb[1] == 'd' and qa[0].get_id() == qb[0].get_id():
             return r_trunc(qa[0])     # denom >= 1: never a division by zero
+        sa = ex.memo.get(('scaledof', a.get_id()))
+        if sa and qb and qb[1] == 'd' and sa[0].get_id() == qb[0].get_id():
+            return r_trunc(n_mul(Fraction(sa[1]), sa[0]))
     a, b = force(ex, a), force(ex, b)
     if not ex.branch(b_not(n_eq(b, 0)), 'bigint divisor != 0'):
         ex.panic('attempt to divide by zero (BigInt)')
@@ -1768,10 +1888,15 @@ def m_numrat_to_f64(ex, m, args, callee):
     v = val(args[0])
     # num-rational's to_f64 always yields Some; the float is the rational's value up to rounding.  The value
     # model keeps the exact value (rounding is ignored - stated in DESIGN.md) and flags overflow to infinity.
+    tiny = Fraction(1, 2 ** 1075)          # below half the smallest subnormal the nearest float is 0.0
     if is_conc(v):
         big = abs(v) >= 2 ** 1024
-        return some(ex, F64(Fraction(v) if not big else Fraction(0), False, big))
-    return some(ex, F64(v, False, inf_of(v)))
+        vv = Fraction(v)
+        if abs(vv) < tiny:
+            vv = Fraction(0)
+        return some(ex, F64(vv if not big else Fraction(v), False, big))
+    under = z3.And(v > -zreal(tiny), v < zreal(tiny))
+    return some(ex, F64(z3.If(under, z3.RealVal(0), v), False, inf_of(v)))
 
 
 @model(r'^NumRat::from_float$')
@@ -1852,6 +1977,21 @@ def m_map_insert(ex, m, args, callee):
 
 @model(r'^(BTreeSet|HashSet)::insert$')
 def m_set_insert(ex, m, args, callee):
+    cur = val(args[0])
+    try:
+        fk0 = freeze(args[1])
+    except Unmodelled:
+        fk0 = None
+    if isinstance(cur, SymSet) or (fk0 is None and isinstance(cur, MapV) and not cur.ent):
+        # a set of symbolic values: membership by forking on equality
+        if not isinstance(cur, SymSet):
+            cur = SymSet()
+            store(innermost_ref(args[0]), cur)
+        for i, it in enumerate(cur.items):
+            if ex.branch(eq_dispatch(ex, it, args[1]), 'set element %d equal' % i):
+                return False
+        cur.items.append(args[1])
+        return True
     mp = map_of(args[0])
     fk = freeze(args[1])
     old = mp.ent.get(fk)
@@ -1925,6 +2065,9 @@ def m_entry(ex, m, args, callee):
 
 @model(r'^(BTreeMap|HashMap|BTreeSet|HashSet)::(len|is_empty)$')
 def m_map_len(ex, m, args, callee):
+    if isinstance(val(args[0]), SymSet):
+        n = len(val(args[0]).items)
+        return n if m.group(2) == 'len' else n == 0
     mp = map_of(args[0])
     n = mp.count()
     if m.group(2) == 'len':
@@ -2343,6 +2486,23 @@ def m_td_new(ex, m, args, callee):
         if not ex.branch(td_in_range(t), 'TimeDelta::%s in range' % k):
             ex.panic('TimeDelta::%s out of bounds' % k)
     return t
+
+
+@model(r'^TimeDelta::(new|try_seconds|try_milliseconds)$')
+def m_td_new2(ex, m, args, callee):
+    k = m.group(1)
+    if k == 'new':
+        secs, nanos = args[0], args[1]
+        # chrono: None unless nanos < 1_000_000_000 (u32) and the total is within +-i64::MAX ms
+        okn = n_lt(nanos, 10 ** 9)
+        t = n_add(n_mul(secs, 10 ** 9), nanos)
+        if ex.branch(b_and(okn, td_in_range(t)), 'TimeDelta::new in range'):
+            return some(ex, t)
+        return none(ex)
+    t = n_mul(args[0], 10 ** 9 if k == 'try_seconds' else 10 ** 6)
+    if ex.branch(td_in_range(t), 'TimeDelta::%s in range' % k):
+        return some(ex, t)
+    return none(ex)
 
 
 @model(r'^<TimeDelta as (Add|Sub)(<.*>)?>::(add|sub)$')
